@@ -36,10 +36,12 @@ namespace chaiscript {
   struct Name_Validator {
     template<typename T>
     static bool is_reserved_word(const T &s) noexcept {
-      const static std::unordered_set<std::uint32_t>
-          words{utility::hash("def"), utility::hash("fun"), utility::hash("while"), utility::hash("for"), utility::hash("if"), utility::hash("else"), utility::hash("&&"), utility::hash("||"), utility::hash(","), utility::hash("auto"), utility::hash("return"), utility::hash("break"), utility::hash("true"), utility::hash("false"), utility::hash("class"), utility::hash("attr"), utility::hash("var"), utility::hash("global"), utility::hash("GLOBAL"), utility::hash("_"), utility::hash("__LINE__"), utility::hash("__FILE__"), utility::hash("__FUNC__"), utility::hash("__CLASS__")};
+      // compared by spelling: distinct identifiers can share a 32 bit hash
+      const static std::unordered_set<std::string_view> words{"def",   "fun",   "while", "for",  "if",  "else",   "&&",     "||",
+                                                               ",",     "auto",  "return", "break", "true", "false", "class",  "attr",
+                                                               "var",   "global", "GLOBAL", "_",    "__LINE__", "__FILE__", "__FUNC__", "__CLASS__"};
 
-      return words.count(utility::hash(s)) == 1;
+      return words.count(std::string_view(s)) == 1;
     }
 
     template<typename T>
